@@ -40,8 +40,8 @@ def load_corpus():
 
 def quick_slice(progs):
     """Deterministic slice for the quick tier: everything hand-written outside the big template products, every
-    third program of the products and of the extracted snippets (offset chosen by the seed)."""
-    off = vlib.seed() % 3
+    fifth program of the products and of the extracted snippets (offset chosen by the seed)."""
+    off = vlib.seed() % 5
     out = []
     k = 0
     for p in progs:
@@ -51,7 +51,7 @@ def quick_slice(progs):
             out.append(p)
         else:
             k += 1
-            if k % 3 == off:
+            if k % 5 == off:
                 out.append(p)
     return out
 
@@ -218,8 +218,9 @@ def compile_all(binary, progs, extra=None):
     return vlib.run_lines(binary, scen, timeout_per_batch=1200)
 
 
-def run_tlc_batches(ck, comps, tier, depths=False, strict_cfg=False):
-    """comps: list of (meta, comp).  Returns list of (meta, comp, RESULT record) and, if depths, the DEPTHS records."""
+def run_tlc_batches(ck, comps, tier, depths_from=None):
+    """comps: list of (meta, comp).  Returns [(meta, comp, RESULT record)], the DEPTHS records (for compilations with
+    index >= depths_from), and TLC's state counts."""
     os.makedirs(vlib.WORK, exist_ok=True)
     results = {}
     depth_rows = []
@@ -243,8 +244,8 @@ def run_tlc_batches(ck, comps, tier, depths=False, strict_cfg=False):
                     raise vlib.ToolError("the engine's instruction set differs from the opcode table of the specification for "
                                          f"{obj['bad'][:8]}: classify the opcode(s) in tools/c03_optable.py and regenerate spec/vm/CodeBlockOps.tla")
         env = {"DUMP": dump, "SIG": sigfile}
-        if depths:
-            env["DEPTHS"] = "1"
+        if depths_from is not None and depths_from < lo + len(part):
+            env["DEPTHS"] = str(max(1, depths_from - lo + 1))
         r = vlib.run_tlc(SPEC, "MCCodeBlockWF.cfg", workers=8, env_extra=env, on_tagged=on_tagged, timeout=1700,
                          coverage=(tier == "thorough" and lo == 0), xmx="12g")
         os.unlink(dump)
@@ -253,7 +254,7 @@ def run_tlc_batches(ck, comps, tier, depths=False, strict_cfg=False):
         trans += r["states"]
         ck.cov.setdefault("checker_cmd", r["cmd"] + " (DUMP=<ndjson of compilations> SIG=<hdump --sig>)")
         if tier == "thorough" and lo == 0:
-            never = [a for a in ("StartBlock", "Step", "ExcStep", "FinishBlock") if re.search(r"<%s [^>]*>: 0:" % a, r["raw_tail"])]
+            never = [a for a in ("StartBlock", "Step", "FinishBlock") if re.search(r"<%s [^>]*>: 0:" % a, r["raw_tail"])]
             if never:
                 raise vlib.ToolError(f"TLC coverage: actions never taken: {never}")
     missing = [i for i in range(len(comps)) if i not in results]
@@ -277,76 +278,59 @@ def write_sig(binary):
 
 # ---------------------------------------------------------------- dynamic half
 
-HANDLER_OPS_NOTE = "programs whose blocks have no handlers: no exceptional edge can be taken inside a frame"
-
-
-def dynamic_half(ck, binary, progs, tier):
-    """Runs programs with the per-instruction depth hook and compares with the depths TLC assigned statically."""
-    limit = 400 if tier == "quick" else 2500
-    cand = [p for p in progs if p["kind"] == "script" and p["origin"] != "mutant"][:limit * 3]
-    res = compile_all(binary, cand, extra={"kind": "run", "events": 4000})
-    comps = []
-    events = {}
-    for i, p in enumerate(cand):
-        r = res.get(i)
-        if not r or r.get("status") != "ok" or not r.get("events"):
-            continue
-        for c in r["comps"]:
-            comps.append(({"prog": i}, c))
-        events[i] = r["events"]
-        if len(events) >= limit:
-            break
-    if not comps:
-        raise vlib.ToolError("dynamic half: no program produced depth events")
-    triples, depth_rows, st, tr = run_tlc_batches(ck, comps, tier, depths=True)
-    # block id -> pc -> set of (env, bind, args); handler-free?  (ids are unique within one program run)
-    static = {}
+def dynamic_half(ck, progs, triples, depth_rows, events):
+    """Compares the per-instruction depth events of executed programs with the depths TLC assigned statically.
+    events: prog index -> list of [frames, block id, pc, env, bind, args, iterators]."""
+    static = {}          # (prog, block id) -> pc -> set of (env, bind, args)
     for row in depth_rows:
-        meta, comp, _ = triples[row["c"]]
-        key = (meta["prog"], row["id"])
-        tab = static.setdefault(key, {})
+        meta, _comp, _ = triples[row["c"]]
+        tab = static.setdefault((meta["prog"], row["id"]), {})
         for d in row["d"]:
             tab.setdefault(d[0], set()).update(tuple(x) for x in d[1:])
-    has_handlers = {}
-    for meta, comp, _ in triples:
+    handlers = {}        # prog -> any block with handlers?
+    dirty = set()        # (prog, block id) with a statically reported finding: the surplus is real at run time
+    opname = {}
+    for meta, comp, resu in triples:
+        pg = meta["prog"]
+        if pg not in events:
+            continue
         for b in comp["blocks"]:
-            has_handlers[(meta["prog"], b["id"])] = bool(b["handlers"])
+            handlers[pg] = handlers.get(pg, False) or bool(b["handlers"])
+            for i in b["code"]:
+                opname[(pg, b["id"], i["pc"])] = i["op"]
+        for v in resu["v"]:
+            if v[0] != "return-leftover":
+                dirty.add((pg, comp["blocks"][v[1] - 1]["id"]))
     exact = loose = 0
     ops_exact = set()
-    opname = {}
-    for meta, comp, _ in triples:
-        for b in comp["blocks"]:
-            for i in b["code"]:
-                opname[(meta["prog"], b["id"], i["pc"])] = i["op"]
     for prog, evs in events.items():
-        free = not any(h for (pg, _), h in has_handlers.items() if pg == prog)
+        free = not handlers.get(prog, False)
         for ev in evs:
             _frames, blk, pc, env, bind, args, _iters = ev
             tab = static.get((prog, blk))
             if tab is None:
-                continue        # a block of the realm (builtin closures), not compiled in this run
+                continue        # not a block of this program's compilations
             opts = tab.get(pc)
             op = opname.get((prog, blk, pc), "?")
             if not opts:
                 ck.failure({"kind": "executed-but-statically-unreachable", "op": op},
-                           {"program": cand[prog]["src"], "block": blk, "pc": pc, "event": ev})
+                           {"program": progs[prog]["src"], "block": blk, "pc": pc, "event": ev})
                 continue
-            if free:
+            if free and (prog, blk) not in dirty:
                 exact += 1
                 ops_exact.add(op)
                 if (env, bind, args) not in opts:
                     ck.failure({"kind": "dynamic-depth-mismatch", "op": op},
-                               {"program": cand[prog]["src"], "block": blk, "pc": pc, "observed": [env, bind, args], "static": sorted(opts)})
+                               {"program": progs[prog]["src"], "block": blk, "pc": pc, "observed": [env, bind, args], "static": sorted(opts)})
             else:
+                # handlers do not restore the stacks, known leaks are real: the static depths are lower bounds
                 loose += 1
                 if not any(env == o[0] and bind >= o[1] and args >= o[2] for o in opts):
                     ck.failure({"kind": "dynamic-depth-below-static", "op": op},
-                               {"program": cand[prog]["src"], "block": blk, "pc": pc, "observed": [env, bind, args], "static": sorted(opts)})
-    ck.cov.update(dynamic_programs=len(events), dynamic_events_exact=exact, dynamic_events_with_handlers=loose,
+                               {"program": progs[prog]["src"], "block": blk, "pc": pc, "observed": [env, bind, args], "static": sorted(opts)})
+    ck.cov.update(dynamic_programs=len(events), dynamic_events_exact=exact, dynamic_events_lower_bound=loose,
                   dynamic_opcodes_exact=len(ops_exact))
-    if exact < 2000:
-        raise vlib.ToolError(f"vacuity guard: only {exact} depth events were compared exactly")
-    return st, tr
+    return exact
 
 
 # ---------------------------------------------------------------- entry point
@@ -371,25 +355,47 @@ def run(tier, replay=None):
         jscore = os.path.join(vlib.ROOT, "tools", "jscore.py")
         if os.path.exists(jscore):
             ck.assumptions.append("tools/jscore.py exists but its programs are not wired into C03 yet")
-    res = compile_all(binary, progs)
+    # programs that are also executed (dynamic half): scripts of the committed corpus; they are compiled through the
+    # "run" path, which also captures blocks compiled later by eval / Function
+    ndyn = 300 if tier == "quick" else 2500
+    dyn_idx = [i for i, p in enumerate(progs) if p["kind"] == "script" and p["origin"] != "mutant" and not p["strict"]]
+    rng.shuffle(dyn_idx)
+    dyn_idx = set(dyn_idx[:ndyn])
+    res = compile_all(binary, [p for i, p in enumerate(progs) if i not in dyn_idx])
+    res_dyn = compile_all(binary, [p for i, p in enumerate(progs) if i in dyn_idx], extra={"kind": "run", "events": 3000})
+    order = [i for i in range(len(progs)) if i not in dyn_idx] + [i for i in range(len(progs)) if i in dyn_idx]
+    merged = {}
+    k1 = k2 = 0
+    for i in range(len(progs)):
+        if i in dyn_idx:
+            merged[i] = res_dyn.get(k2); k2 += 1
+        else:
+            merged[i] = res.get(k1); k1 += 1
 
     comps = []
     status = {}
-    for i, p in enumerate(progs):
-        r = res.get(i) or {"status": "abort"}
+    events = {}
+    depths_from = None
+    for i in order:
+        p = progs[i]
+        r = merged.get(i) or {"status": "abort"}
         st = r.get("status", "abort" if "abort" in r else "?")
         status[st] = status.get(st, 0) + 1
         if st in ("panic", "abort", "decode_panic", "?"):
             # the compiler (or the decoder walking its output) failed on a program the parser accepted
             ck.failure({"kind": "compile-" + st, "where": re.sub(r"\d+", "N", str(r.get("panic") or r.get("abort"))[-80:])},
-                       {"program": p["src"], "name": p["name"], "result": r})
+                       {"program": p["src"], "name": p["name"], "result": {k: v for k, v in r.items() if k != "comps"}})
             continue
+        if i in dyn_idx and depths_from is None:
+            depths_from = len(comps)
+        if i in dyn_idx and r.get("events"):
+            events[i] = r["events"]
         for c in r.get("comps", []):
             comps.append(({"prog": i}, c))
     if len(comps) < (300 if tier == "quick" else 3000):
         raise vlib.ToolError(f"vacuity guard: only {len(comps)} compilations to check ({status})")
 
-    triples, _d, states, trans = run_tlc_batches(ck, comps, tier)
+    triples, depth_rows, states, trans = run_tlc_batches(ck, comps, tier, depths_from=depths_from)
 
     blocks = instr = reached = excedges = 0
     ops_seen = set()
@@ -425,9 +431,9 @@ def run(tier, replay=None):
     if len(ops_seen) < 150:
         raise vlib.ToolError(f"vacuity guard: only {len(ops_seen)} opcodes occur in the dumps")
 
-    st2, tr2 = dynamic_half(ck, binary, progs, tier)
-    ck.cov["states"] += st2
-    ck.cov["transitions"] += tr2
+    exact = dynamic_half(ck, progs, triples, depth_rows, events)
+    if exact < 2000:
+        raise vlib.ToolError(f"vacuity guard: only {exact} depth events were compared exactly")
     ck.assumptions += [
         "the dump hook decodes with the VM's own InstructionIterator: a block the VM would decode differently is not modelled",
         "`throws`/effects of opcodes come from tools/c03_optable.py (read off the handlers); the dynamic half validates them on executed paths only",
